@@ -22,6 +22,14 @@ func c19ClassifyTiled(k c04Cfg, pix []byte, res c04Result) (string, string) {
 	if th == 0 {
 		th = k.H
 	}
+	if k.rateSet() {
+		// discriminating experiment: the same tiling without a rate target (per-tile path / no allocator measurement)
+		k1 := k
+		k1.Ratio, k1.PCRD, k1.Rates = 0, false, nil
+		if c04RoundTrip(k1, pix).Outcome == "ok" {
+			return "j2k-tiles-global-rate-allocation-" + res.Outcome, "several tiles + a rate target (TargetRatio / LayerRates, final lossless layer): Encoder.writeTilesWithGlobalRateDistortion — the allocator runs every tile's packet encoder before the final pass; the final packet headers must start from reset state (tag trees, Included flags, Lblock); the same tiling and layers without a rate target round-trips"
+		}
+	}
 	if (k.PW != 0 || k.PH != 0) && k.Prog >= 2 {
 		k1 := k
 		k1.Prog = 0
@@ -202,6 +210,7 @@ func c19Run(c *hx.Ctx) {
 	r := c.R
 	c19Correspondence(c)
 	c19OffsetSweep(c)
+	c19RateSweep(c)
 
 	mk := func(w, h, tw, th, comps, p, lv, ly int) c04Cfg {
 		return c04Cfg{W: w, H: h, C: comps, P: p, Levels: lv, CBW: 16, CBH: 16, Layers: ly, MCT: true, TW: tw, TH: th}
@@ -473,5 +482,70 @@ func c19OffsetRandom(c *hx.Ctx, tiled bool) {
 			tag = "image-offset:random-custom-precinct-aligned"
 		}
 		c19OffsetEval(c, k, ox, oy, k.TW != 0 || r.Intn(2) == 0, tag)
+	}
+}
+
+// c19RateSweep: several tiles together with GLOBAL rate allocation (Encoder.writeTilesWithGlobalRateDistortion: the
+// allocator runs every tile's packet encoder before the final pass) and a final lossless layer — the reversible
+// stream must still decode exactly. TargetRatio with and without PCRD, LayerRates, 2..3 layers, 2..9 tiles, partial
+// tiles, 1 and 3 components; the same configurations on a single tile as control (own path, own reset).
+// (The .90/.92 codecs of jpeg2000/lossless expose no tile parameters: this path is reachable through
+// jpeg2000.EncodeParams only.)
+func c19RateSweep(c *hx.Ctx) {
+	r := c.R
+	type rc struct {
+		ratio float64
+		pcrd  bool
+		rates []float64
+		ly    int
+	}
+	rcs := []rc{{4, true, nil, 2}, {4, false, nil, 2}, {8, true, nil, 3}, {2, true, nil, 2}, {0, false, []float64{8, 4, 0}, 3},
+		{0, true, []float64{6, 0}, 2}, {3, true, []float64{12, 6, 0}, 3}, {16, true, nil, 3}}
+	content := func(k c04Cfg, kind int) []int {
+		if kind != 5 {
+			return c04Samples(r, k, kind)
+		}
+		// smooth gradient plus noise: every tile has several coding passes to distribute over the layers
+		s := make([]int, k.W*k.H*k.C)
+		hi := (1 << k.P) - 1
+		for i := range s {
+			px := i / k.C
+			s[i] = ((px%k.W)*3 + (px/k.W)*2 + r.Intn(16)) & hi
+		}
+		return s
+	}
+	reps := 1
+	if c.Thorough() {
+		reps = 4
+	}
+	for rep := 0; rep < reps; rep++ {
+		for i, q := range rcs {
+			for _, g := range [][4]int{{64, 64, 32, 32}, {48, 40, 16, 24}, {37, 29, 16, 16}, {64, 64, 0, 0}} {
+				k := c04Cfg{W: g[0], H: g[1], C: []int{1, 3}[(i+rep)%2], P: []int{8, 12}[(i/2+rep)%2], Levels: 1 + (i+rep)%3, CBW: []int{16, 32}[i%2], CBH: 16,
+					Layers: q.ly, MCT: true, TW: g[2], TH: g[3], Prog: (i + rep) % 5, Ratio: q.ratio, PCRD: q.pcrd, Rates: q.rates, Append: true}
+				if rep > 0 {
+					k.W, k.H = r.Range(33, 80), r.Range(33, 80)
+					if k.TW != 0 {
+						k.TW, k.TH = r.Range(12, 40), r.Range(12, 40)
+					}
+				}
+				tag := "tiles-with-global-rate-allocation"
+				if k.TW == 0 {
+					tag = "single-tile-rate-allocation-control"
+					s := content(k, []int{5, 0, 4}[(i+rep)%3])
+					pix := c04Container(k, s)
+					res := c04RoundTrip(k, pix)
+					c.Eval(k.String()+"|"+hx.Hex(pix[:min(len(pix), 64)]), false)
+					c.Count("outcome:" + res.Outcome)
+					c.Count(tag)
+					if res.Outcome != "ok" {
+						c04Fail(c, hx.Failure{Class: "j2k-single-tile-rate-allocation-" + res.Outcome, What: "single-tile reversible stream with a rate target and a final lossless layer is not exact",
+							Input: k.input(pix), Expected: "decoded samples == source samples", Actual: res.Outcome + ": " + res.Detail})
+					}
+					continue
+				}
+				c19Eval(c, k, content(k, []int{5, 0, 4}[(i+rep)%3]), tag)
+			}
+		}
 	}
 }
